@@ -5,6 +5,7 @@ package main
 import (
 	"fmt"
 	"reflect"
+	"strconv"
 	"unsafe"
 
 	"verif/common"
@@ -48,6 +49,11 @@ func (x *ringInst) Ops() []space.Op {
 	}
 	for c := -1; c <= 12; c++ {
 		ops = append(ops, space.Op{Name: "Recap", Args: []int{c}})
+	}
+	if x.cap > 12 { // around the current capacity too (the "same capacity" refusal)
+		for c := x.cap - 1; c <= x.cap+1 && c <= ringMaxCap; c++ {
+			ops = append(ops, space.Op{Name: "Recap", Args: []int{c}})
+		}
 	}
 	for c := 1; c <= 3; c++ {
 		ops = append(ops, space.Op{Name: "Init", Args: []int{c}})
@@ -93,11 +99,18 @@ func (x *ringInst) Apply(op space.Op) *space.Mismatch {
 		}
 	case "PushWithExpand":
 		x.next++
-		if len(x.model) == x.cap {
-			x.cap *= 2
-		}
+		full := len(x.model) == x.cap
 		x.r.PushWithExpand(x.next)
 		x.model = append(x.model, x.next)
+		if full {
+			// the growth factor is not part of the property: any capacity that holds the content is
+			// accepted and becomes the model's capacity (golib doubles)
+			c := x.r.Cap()
+			if c < len(x.model) {
+				return &space.Mismatch{Sig: "Ring.PushWithExpand|capacity-too-small", What: fmt.Sprintf("PushWithExpand on a full ring of %d: Cap() = %d afterwards, %d elements pushed", x.cap, c, len(x.model))}
+			}
+			x.cap = c
+		}
 	case "Recap":
 		c := op.Args[0]
 		got := x.r.Recap(c)
@@ -205,6 +218,34 @@ func capCheck(r *common.Run) {
 			r.Nontrivial(1)
 		}
 	}
+	// requests no 32-bit position counter can serve: refused (panic), never a silently smaller ring
+	if strconv.IntSize == 64 {
+		big := int64(1) << 32
+		for _, req := range []int64{big/2 + 1, big - 1, big, big + 1, big + 3, 2 * big, 1<<62 + 1, 1<<63 - 1} {
+			var got int
+			var accepted bool
+			var pushes, pops []bool
+			_, _, p := common.Catch(func() {
+				s := ringz.NewSync[int](int(req))
+				accepted = true
+				got = s.Cap()
+				for i := 0; i < 3; i++ {
+					pushes = append(pushes, s.Push(i))
+				}
+				for i := 0; i < 3; i++ {
+					_, ok := s.Pop()
+					pops = append(pops, ok)
+				}
+			})
+			r.Eval(1)
+			r.Nontrivial(1)
+			if accepted {
+				if int64(got) < req {
+					r.Violation("SyncRing.Cap|huge-request-silently-truncated", fmt.Sprintf("NewSync(%d) was accepted and gives Cap() = %d (pushes %v, pops %v, panic afterwards %v); want a refusal (panic in NewSync) or a capacity >= the request", req, got, pushes, pops, p), map[string]any{"cap": req}, "")
+				}
+			}
+		}
+	}
 	for _, bad := range []int{0, -1} {
 		_, _, p := common.Catch(func() { ringz.NewSync[int](bad) })
 		r.Eval(1)
@@ -242,13 +283,23 @@ type syncInst struct {
 	next  Val
 	steps int
 	max   int
+
+	reinit bool
 }
 
 func (x *syncInst) Ops() []space.Op {
 	if x.steps >= x.max {
 		return nil
 	}
-	return []space.Op{{Name: "Push"}, {Name: "Pop"}}
+	ops := []space.Op{{Name: "Push"}, {Name: "Pop"}}
+	if x.reinit {
+		// Init on a used ring: it is the set-up routine of the type, so afterwards the ring is an
+		// empty ring of the requested capacity again
+		for _, c := range []int{1, 2, 3, 4, 8} {
+			ops = append(ops, space.Op{Name: "Init", Args: []int{c}})
+		}
+	}
+	return ops
 }
 
 func (x *syncInst) Apply(op space.Op) *space.Mismatch {
@@ -277,12 +328,27 @@ func (x *syncInst) Apply(op space.Op) *space.Mismatch {
 		if !ok || v != want {
 			return &space.Mismatch{Sig: "SyncRing.Pop|wrong-result|sequential", What: fmt.Sprintf("Pop = (%v,%v), want (%v,true)", v, ok, want)}
 		}
+	case "Init":
+		x.s.Init(op.Args[0])
+		x.cap = pow2(op.Args[0])
+		x.model = nil
 	}
 	return nil
+}
+
+func pow2(req int) int {
+	c := 2
+	for c < req {
+		c *= 2
+	}
+	return c
 }
 func (x *syncInst) Roots() []any     { return []any{&x.s, x.steps} }
 func (x *syncInst) Abstract() string { return fmt.Sprint(len(x.model)) }
 func (x *syncInst) Check() *space.Mismatch {
+	if g := x.s.Cap(); g != x.cap {
+		return &space.Mismatch{Sig: "SyncRing.Cap|wrong|sequential", What: fmt.Sprintf("Cap = %d, want %d", g, x.cap)}
+	}
 	if g := x.s.Len(); g != len(x.model) {
 		return &space.Mismatch{Sig: "SyncRing.Len|wrong|sequential", What: fmt.Sprintf("Len = %d, model %d", g, len(x.model))}
 	}
@@ -307,16 +373,17 @@ func (x *syncInst) Check() *space.Mismatch {
 func syncSearch(r *common.Run) []space.Result {
 	var out []space.Result
 	canon := &space.Canonizer{RenameType: reflect.TypeOf(Val(0))}
-	for _, capa := range []int{2, 4, 8} {
+	for _, req := range []int{2, 4, 8, 1, 3, 5, 6, 7} {
+		capa := pow2(req) // the ring's capacity; req is what the constructor is asked for
 		// binding of the teleport to the code: dump(teleport(k)) == dump(k honest pairs)
 		teleOK := true
 		for k := 0; k <= 4*capa; k++ {
-			honest := ringz.NewSync[Val](capa)
+			honest := ringz.NewSync[Val](req)
 			for i := 0; i < k; i++ {
 				honest.Push(Val(i + 1))
 				honest.Pop()
 			}
-			tele := ringz.NewSync[Val](capa)
+			tele := ringz.NewSync[Val](req)
 			if !teleport(&tele, uint32(k)) {
 				teleOK = false
 				break
@@ -342,16 +409,39 @@ func syncSearch(r *common.Run) []space.Result {
 		if !r.Thorough() && capa == 8 {
 			depth = 2*capa + 2
 		}
+		if req != capa { // rounded-up requests: a shorter window, the index arithmetic is the same
+			depth = capa + 3
+		}
 		sys := space.System{
-			Name:   fmt.Sprintf("SyncRing/cap%d", capa),
+			Name:   fmt.Sprintf("SyncRing/requested%d-cap%d", req, capa),
 			Starts: len(ks),
 			New: func(s int) space.Instance {
 				x := &syncInst{cap: capa, max: depth}
 				if s%2 == 1 {
-					x.s.Init(capa) // zero value + Init instead of the constructor
+					x.s.Init(req) // zero value + Init instead of the constructor
 				} else {
-					x.s = ringz.NewSync[Val](capa)
+					x.s = ringz.NewSync[Val](req)
 				}
+				if s > 0 {
+					teleport(&x.s, ks[s])
+				}
+				return x
+			},
+			Canon: canon,
+		}
+		res := space.Search(r, sys)
+		r.Nontrivial(int64(res.States))
+		out = append(out, res)
+	}
+	// Init on a ring that has been used (any counters, any content): afterwards an empty ring of the new capacity
+	{
+		ks := []uint32{0, 1, 3, 1<<32 - 1, 1<<32 - 2}
+		sys := space.System{
+			Name:   "SyncRing/re-Init",
+			Starts: len(ks),
+			New: func(s int) space.Instance {
+				x := &syncInst{cap: 2, max: 5, reinit: true}
+				x.s = ringz.NewSync[Val](2)
 				if s > 0 {
 					teleport(&x.s, ks[s])
 				}
